@@ -126,7 +126,9 @@ CLAIMED = {
              "Proved over the model of Word::render for the fragment in the property's quantifier (one plain segment, one matrix of binary features, or `$` on the left; "
              "string, `+`string or `*` on the right): the printed syllable is the concatenation of one piece per segment; a segment no romaniser hits gets its default "
              "piece, the first romaniser that hits replaces it (or suffixes the nearest base grapheme); with no romanisers the loop is the default renderer. Proved over the "
-             "deromaniser step of the word parser: a key at the cursor appends exactly the alias's segment and consumes exactly the key; elsewhere the parser is the plain one. "
+             "deromaniser step of the word parser: a key at the cursor appends exactly the alias's segment and consumes exactly the key; elsewhere the parser is the plain one; "
+             "and typing the grapheme instead is the same step (typed_grapheme: where a grapheme of the table stands uncontinued, the plain parser appends exactly its "
+             "segment and moves past exactly it - proved through the longest-match loop over the generated table). "
              "PARTIAL: the whole-word statement `encode(w) parses like w` has no theorem (it is false at grapheme boundaries where the typed IPA would fuse with its "
              "neighbour, e.g. a key for `t` before a tie bar) and is decided by the c15-spec search, as are romanisers with modifiers and multi-segment inputs.",
         note="Trusted: Lean kernel, standard axioms; alias-ops correspondence (model render/parse vs Word::render / Word::new through the verif hooks, 20k ops per quick run); "
@@ -153,8 +155,9 @@ CLAIMED = {
              "removed; `~` returns one group per listed name, in the order listed, the first of that name, and fails on a missing name; on a config that passes validation "
              "every tag's % chain reaches a root within |config|+1 hops and the loop detector itself cannot run out of steps (pigeonhole over the distinct tags); a config in "
              "which some tag's % chain returns to it never passes validation; and whatever order the tags are run in, every result reported with the cache is the result "
-             "computed without it (cache coherence as an invariant over the run). PARTIAL: that the composed stages equal one library call on the concatenated history is "
-             "C10's staged-run statement and inherits its render/parse round-trip hypothesis; it is compared on every generated chain. The config lexer/parser is not "
+             "computed without it (cache coherence as an invariant over the run); a tag's words are its root's word files pushed through the entries of the whole chain, "
+             "root first (finalWords_chain), and collapse into ONE library call on the concatenated history when the library composes (runEntries_history, hypothesis = "
+             "C10's staged-run statement, which for the real library needs the render/parse round trip; compared on every generated chain). The config lexer/parser is not "
              "modelled: the tie is the seq-plan correspondence plus runs of the real binary.",
         note="Trusted: Lean kernel, standard axioms; seq-plan correspondence (model plan vs the reference reading of the generated config, 160 projects per quick run) and the "
              "reference's agreement with the files the asca binary writes; the project generator.",
